@@ -63,6 +63,9 @@ def run(ctx: Ctx) -> None:
         # ---- R2
         _search_model(ctx, f)
 
+    ctx.rule("C14.R5", "the tracked population wrapper hands every individual of a generation to the tracker (evaluated or not)")
+    ctx.floor("C14.R5", _population_model(ctx), 1, "tracked population wrappers")
+
     # is_done delegation
     alg = prog.get_class(ALGORITHM)
     for c in prog.subclasses(ALGORITHM, strict=False):
@@ -202,6 +205,66 @@ def _search_model(ctx: Ctx, f: FunctionInfo) -> None:
             und = und or f"only {checks} budget checks were reached in the model"
     ctx.ob("C14.R2", f, f.node, f"{cls.name}.search: between two budget checks a non-empty batch of newly created individuals is evaluated; nothing after 'done'",
            False if bad else (None if und else True), bad or und or "", witness={"batch_sizes": sorted(sizes)})
+
+
+def _population_model(ctx: Ctx) -> int:
+    """C14.R5: the tracked population wrapper (the class the GP search wraps every generation in: a constructor that takes an
+    iterable of individuals and a tracker) hands *every* individual to the tracker - also those that already carry a fitness,
+    because genetic steps evaluate through the raw evaluator and the tracker's best (what a target-fitness budget reads) is
+    only updated inside tracker.evaluate.  Interpreted on [already evaluated, not evaluated]."""
+    from ..modelinterp import Budget, Effect, Interp, Sym, UNKNOWN, _NONE
+    prog = ctx.prog
+    n = 0
+    for c in prog.classes.values():
+        init = c.methods.get("__init__")
+        if init is None or not c.module.name.startswith("geneticengine.algorithms") or "tracker" not in init.params or len(init.params) < 3:
+            continue
+        # a wrapper of individuals: its first parameter is iterated in the constructor
+        src = init.params[1]
+        if not any(isinstance(l, (ast.For, ast.comprehension)) and any(isinstance(x, ast.Name) and x.id == src for x in ast.walk(l.iter))
+                   for l in walk_local(init.node)):
+            continue
+        n += 1
+        inds = [Sym("ind1"), Sym("ind2")]
+        fit = {"ind1": True, "ind2": False}
+
+        def call_model(it, call, env, args, kwargs):
+            nm = call_name(call)
+            recv = it.ev(call.func.value, env, 9) if isinstance(call.func, ast.Attribute) else None
+            if nm in ("evaluate_single", "evaluate") and isinstance(recv, Sym) and recv.tag == "tracker":
+                b = args[0] if args else UNKNOWN
+                it.trace.append(Effect("call", "tracked", (list(b) if isinstance(b, list) else [b],), {}, node=call))
+                return _NONE
+            if nm == "has_fitness" and isinstance(recv, Sym) and recv.tag in fit:
+                return fit[recv.tag]
+            if nm == "get_problem":
+                return Sym("problem")
+            return None
+
+        it = Interp(prog, c, lambda *_: None, call_model, max_depth=4, max_traces=16)
+        env = {"self": Sym("self"), src: list(inds), "tracker": Sym("tracker")}
+        for p_ in init.params[2:]:
+            env.setdefault(p_, 0)
+        construct = f"{c.name}: every wrapped individual is handed to the tracker"
+        try:
+            runs = it.run(init, env)
+        except Budget:
+            ctx.ob("C14.R5", init, init.node, construct, None, "too many interpretations")
+            continue
+        bad = und = None
+        for trace, rv, notes in runs:
+            if any(e.kind == "raise" for e in trace):
+                continue
+            seen = [x.tag for e in trace if e.kind == "call" and e.name == "tracked" for x in e.args[0] if isinstance(x, Sym)]
+            if any(not isinstance(x, Sym) for e in trace if e.kind == "call" and e.name == "tracked" for x in e.args[0]):
+                und = "what is handed to the tracker is not followed"
+            for t in ("ind1", "ind2"):
+                if t not in seen and bad is None:
+                    bad = (f"an individual that {'already carries a fitness' if fit[t] else 'has no fitness yet'} never reaches the tracker: "
+                           f"offspring evaluated by a step through the raw evaluator are then invisible to the tracker, its best is not "
+                           f"updated and a target-fitness budget (alone or inside AnyOf) is not seen as satisfied")
+        ctx.ob("C14.R5", init, init.node, construct, False if bad else (None if und else True), bad or und or "")
+    return n
 
 
 def _budget_models(ctx: Ctx) -> int:
